@@ -1347,6 +1347,7 @@ def run(chk: core.Check):
     handle_table_cases(chk, env, cov_cases(chk), "covariate")
     handle_table_cases(chk, env, f9_cases(chk), "float32-collision")
     handle_table_cases(chk, env, f9f_cases(chk), "float32-neighbours")
+    sort_index_cases(chk, env)
     # add_observations
     acases = addobs_cases(chk)
     ares = [run_addobs(env, c) for c in acases]
@@ -1378,6 +1379,54 @@ def run(chk: core.Check):
     chk.hist.pop("sampled", None)
     chk.max_samples = 8
     chk.exhaustive = False
+
+
+def sort_index_cases(chk, env):
+    """Reader option `sort_index=True` (individuals in sorted order instead of first appearance): not part of the Lean model;
+    the alignment clause (values, mask and ages of row i belong to identifier i) is evaluated directly on the implementation."""
+    import numpy as np
+    import pandas as pd
+    rng = chk.rng
+    for _ in range(60 if chk.tier == "thorough" else 12):
+        n_ind = rng.randrange(2, 6)
+        ids = rng.sample(["z9", "b", "A", "m-3", "07", "k", "c1", "y"], n_ind)
+        rows = []
+        for i in ids:
+            t0 = rng.randrange(50, 80)
+            for v in range(rng.randrange(1, 4)):
+                rows.append((i, float(t0 + v) + rng.choice([0.0, 0.25, 0.5]), rng.randrange(0, 64) / 64.0,
+                             (rng.randrange(0, 64) / 64.0) if rng.random() < 0.8 else float("nan")))
+        rng.shuffle(rows)
+        df = pd.DataFrame(rows, columns=["ID", "TIME", "Y0", "Y1"])
+        case = {"kind": "sort_index", "rows": [list(r) for r in rows]}
+        try:
+            with core.quiet():
+                data = env.Data.from_dataframe(df, sort_index=True)
+                ds = env.Dataset(data)
+        except Exception as e:  # noqa
+            chk.impl_failure(case, f"valid table refused with sort_index=True: {env.err(e)}")
+            continue
+        want_ids = sorted(set(i for i, *_ in rows))
+        if list(ds.indices) != want_ids:
+            chk.impl_failure(case, f"sort_index=True: individuals {list(ds.indices)}, expected sorted {want_ids}")
+        if [ind.idx for ind in data] != list(ds.indices) or list(data.individuals) != list(ds.indices):
+            chk.impl_failure(case, "sort_index=True: iteration order, `individuals` and dataset indices disagree")
+        for pos, ident in enumerate(ds.indices):
+            mine = sorted((t, a, b) for i, t, a, b in rows if i == ident)
+            nv = int(ds.n_visits_per_individual[pos])
+            ages = [float(x) for x in ds.timepoints[pos, :nv]]
+            vals = ds.values[pos, :nv].tolist()
+            mask = ds.mask[pos, :nv].tolist()
+            ok = nv == len(mine) and ages == [float(np.float32(t)) for t, _, _ in mine]
+            for k, (t, a, b) in enumerate(mine[:nv]):
+                exp = [a, b]
+                for c in range(2):
+                    present = not (isinstance(exp[c], float) and exp[c] != exp[c])
+                    ok = ok and bool(mask[k][c]) == present and (not present or vals[k][c] == float(np.float32(exp[c])))
+            if not ok:
+                chk.impl_failure(case, f"sort_index=True: row {pos} of the dataset does not hold the visits of its identifier '{ident}'")
+        chk.case(("sort_index", tuple(map(tuple, rows))), nontrivial=[i for i in dict.fromkeys(r[0] for r in rows)] != want_ids,
+                 tags={"layout": "visit-sort_index"})
 
 
 def probe_findings(chk, env):
